@@ -9,6 +9,8 @@ From V Require FrameSorter.Model RecvStream.Model RecvStream.Spec RunLoop.Proofs
 Import ListNotations.
 Open Scope Z_scope.
 
+Definition ex_cfg_early : cfg := {| c_client := true; c_keepAlivePeriod := 0; c_maxIdleTimeout := 10000; c_hsIdleTimeout := 5000 |}.
+
 (** (a) Whatever the run loop went through before and whatever close requests and events follow, the
     first close request is the recorded cause; after the fan-out with it every API call (open, accept,
     datagram, Read/Write on any stream not shut down before) returns that cause or the object's own terminal
@@ -242,9 +244,9 @@ Theorem C17_idle_not_late_history : forall s0 l pto,
   let T := Z.max (hist_lastRecv (lastRecv s0) l) (hist_firstAE 0 l) + Z.max (hist_idle (cf s0) (idleTimeout s0) l) (3 * pto) in
   closeErr s = None -> hsComplete s = true ->
   (nextKA s pto = 0 -> pacing s = 0 ->
-     maybeResetTimer s pto 0 0 = T /\
-     closeErr (step s (EvWake (maybeResetTimer s pto 0 0) pto)) = Some {| ce_err := EIdle; ce_immediate := true |}) /\
-  (forall ack loss, sane s -> 0 <= pto -> maybeResetTimer s pto ack loss <= T).
+     maybeResetTimer s pto 0 0 0 = T /\
+     closeErr (step s (EvWake (maybeResetTimer s pto 0 0 0) pto)) = Some {| ce_err := EIdle; ce_immediate := true |}) /\
+  (forall retire ack loss, sane s -> 0 <= pto -> maybeResetTimer s pto retire ack loss <= T).
 Proof. exact idle_not_late_history. Qed.
 Print Assumptions C17_idle_not_late_history.
 
@@ -270,16 +272,39 @@ Example C17_idle_excess_example :
 Proof. reflexivity. Qed.
 Print Assumptions C17_idle_excess_example.
 
+(** the timer covers every source that can be due, in every block mode, before and after the handshake: the armed
+    deadline is never later than the base deadline (handshake timeouts / idle timeout / keep-alive) nor than the next
+    connection-ID retirement (connIDGenerator.NextRetireTime(), taken BEFORE the hard-blocked early return since removing
+    a retired ID sends nothing; repo commit 1b7cb92); unless hard-blocked not later than the ACK alarm and the
+    loss-detection timer; if not blocked at all not later than the pacing deadline; and it IS one of these instants. *)
+Theorem C17_timer_covers_every_source : forall s pto retire ack loss,
+  let d := maybeResetTimer s pto retire ack loss in
+  d <= base_deadline s pto /\
+  (retire <> 0 -> d <= retire) /\
+  (blocked s <> rl_blockModeHardBlocked -> (ack <> 0 -> d <= ack) /\ (loss <> 0 -> d <= loss)) /\
+  (blocked s <> rl_blockModeHardBlocked -> blocked s <> rl_blockModeCongestionLimited -> pacing s <> 0 -> d <= pacing s) /\
+  (d = base_deadline s pto \/ d = retire \/ d = ack \/ d = loss \/ d = pacing s).
+Proof. exact timer_covers_every_source. Qed.
+Print Assumptions C17_timer_covers_every_source.
+
+(** non-vacuity / regression of 1b7cb92: hard-blocked, idle timeout far away, a connection ID due for removal at 7000:
+    the timer is armed for 7000 (before the repair the hard-blocked branch returned the idle timeout) *)
+Example C17_retirement_wakes_hard_blocked :
+  let s := step (step (step (init ex_cfg_early 1000) (EvHsComplete 30000 30000)) (EvRecv 2000)) (EvBlocked rl_blockModeHardBlocked) in
+  maybeResetTimer s 100 7000 0 0 = 7000 /\ nextIdle s 100 = 12000.
+Proof. vm_compute. split; reflexivity. Qed.
+Print Assumptions C17_retirement_wakes_hard_blocked.
+
 (** the deadline the loop arms after the handshake is never later than that instant, and is that instant when
     nothing else is pending; a wake-up at it declares the timeout *)
 Theorem C17_idle_deadline : forall s pto,
-  (forall ack loss, sane s -> 0 <= pto -> hsComplete s = true -> maybeResetTimer s pto ack loss <= nextIdle s pto) /\
+  (forall retire ack loss, sane s -> 0 <= pto -> hsComplete s = true -> maybeResetTimer s pto retire ack loss <= nextIdle s pto) /\
   (hsComplete s = true -> nextKA s pto = 0 \/ blocked s <> rl_blockModeNone -> pacing s = 0 ->
-     maybeResetTimer s pto 0 0 = nextIdle s pto) /\
+     maybeResetTimer s pto 0 0 0 = nextIdle s pto) /\
   (hsComplete s = true -> nextKA s pto = 0 -> decide s (nextIdle s pto) pto = DIdleTimeout).
 Proof.
   intros s pto. split; [|split].
-  - intros ack loss. exact (deadline_le_idle s pto ack loss).
+  - intros retire ack loss. exact (deadline_le_idle s pto retire ack loss).
   - exact (deadline_eq_idle s pto).
   - exact (wake_at_idle_deadline_fires s pto).
 Qed.
@@ -303,10 +328,10 @@ Print Assumptions C17_handshake_timeouts_not_early.
     from then on queues the PING; and if every PING is answered within idleTimeout - that interval, no history
     of such rounds (with any extra wake-ups in between) reaches the idle branch. *)
 Theorem C17_keepalive_prevents_idle :
-  (forall s pto ack loss, ka_state s -> 0 <= pto ->
-     maybeResetTimer s pto ack loss <= lastRecv s + Z.max (kaInterval s) (pto * 3 / 2)) /\
+  (forall s pto retire ack loss, ka_state s -> 0 <= pto ->
+     maybeResetTimer s pto retire ack loss <= lastRecv s + Z.max (kaInterval s) (pto * 3 / 2)) /\
   (forall s pto, ka_state s -> 0 <= pto -> pacing s = 0 ->
-     maybeResetTimer s pto 0 0 = lastRecv s + Z.max (kaInterval s) (pto * 3 / 2)) /\
+     maybeResetTimer s pto 0 0 0 = lastRecv s + Z.max (kaInterval s) (pto * 3 / 2)) /\
   (forall s now pto, ka_state s -> 0 <= pto -> lastRecv s + Z.max (kaInterval s) (pto * 3 / 2) <= now ->
      decide s now pto = DKeepAlive) /\
   (forall rs s, ka_state s -> rounds_ok s rs -> closeErr (run_rounds s rs) = None /\ ka_state (run_rounds s rs)).
